@@ -2637,6 +2637,277 @@ theorem canResume_sound (c : Cache) (seq : Nat) (pos w : Int) (h : Inv c) (hw : 
       rw [specCount_abs seq _ _ c.cells c.rows h.len]
       omega
 
+/-! ### no sequence holds a position twice, along histories that keep the contract -/
+
+def NodupPos (s : Spec) : Prop := ∀ q, (seqPositions s q).Nodup
+
+/-- entries are only dropped or lose owners, positions stay: what `q` holds afterwards is a sublist of what
+    `r` held before -/
+theorem seqPositions_filterMap_sublist (f : Entry → Option Entry) (q r : Nat)
+    (hf : ∀ x y, f x = some y → y.pos = x.pos ∧ (q ∈ y.seqs → r ∈ x.seqs)) (s : Spec) :
+    (seqPositions (s.filterMap f) q).Sublist (seqPositions s r) := by
+  induction s with
+  | nil => exact List.Sublist.refl _
+  | cons x xs ih =>
+    unfold seqPositions at ih ⊢
+    simp only [List.filterMap_cons]
+    cases hfx : f x with
+    | none =>
+      simp only
+      by_cases hr : r ∈ x.seqs
+      · rw [List.filter_cons_of_pos (by simpa using hr), List.map_cons]
+        exact List.Sublist.cons _ ih
+      · rw [List.filter_cons_of_neg (by simpa using hr)]
+        exact ih
+    | some y =>
+      simp only
+      obtain ⟨hp, hm⟩ := hf x y hfx
+      by_cases hq : q ∈ y.seqs
+      · rw [List.filter_cons_of_pos (by simpa using hq), List.filter_cons_of_pos (by simpa using hm hq),
+          List.map_cons, List.map_cons, hp]
+        exact List.Sublist.cons_cons _ ih
+      · rw [List.filter_cons_of_neg (by simpa using hq)]
+        by_cases hr : r ∈ x.seqs
+        · rw [List.filter_cons_of_pos (by simpa using hr), List.map_cons]
+          exact List.Sublist.cons _ ih
+        · rw [List.filter_cons_of_neg (by simpa using hr)]
+          exact ih
+
+theorem nodupPos_evict (s : Spec) (seq : Nat) (thr : Int) (h : NodupPos s) : NodupPos (evict s seq thr) := by
+  intro q
+  refine (h q).sublist (seqPositions_filterMap_sublist _ q q ?_ s)
+  intro x y hxy
+  unfold evictEntry at hxy
+  split at hxy
+  · simp only at hxy
+    split at hxy
+    · cases hxy
+    · cases hxy; exact ⟨rfl, fun hq => (List.mem_filter.mp hq).1⟩
+  · cases hxy; exact ⟨rfl, id⟩
+
+theorem nodupPos_specSlide (s : Spec) (w : Int) (b : List Tok) (h : NodupPos s) : NodupPos (specSlide s w b) := by
+  unfold specSlide
+  generalize batchSeqs b = seqs
+  induction seqs generalizing s with
+  | nil => exact h
+  | cons seq rest ih =>
+    simp only [List.foldl_cons]
+    cases lowest b seq with
+    | none => exact ih s h
+    | some low => exact ih _ (nodupPos_evict s seq _ h)
+
+/-- a removal to the end (`MaxInt32`: nothing shifts) only drops owners -/
+theorem nodupPos_remove_inf (s s' : Spec) (seq : Nat) (b : Int) (h : NodupPos s)
+    (hr : KV.remove s seq b maxInt32 = some s') : NodupPos s' := by
+  unfold KV.remove at hr
+  split at hr
+  · cases hr
+  · cases hr
+    intro q
+    refine (h q).sublist (seqPositions_filterMap_sublist _ q q ?_ s)
+    intro x y hxy
+    unfold rmEntry at hxy
+    split at hxy
+    · split at hxy
+      · simp only at hxy
+        split at hxy
+        · cases hxy
+        · cases hxy; exact ⟨rfl, fun hq => (List.mem_filter.mp hq).1⟩
+      · split at hxy
+        · cases hxy; exact ⟨by simp [rmOffset], id⟩
+        · cases hxy; exact ⟨rfl, id⟩
+    · cases hxy; exact ⟨rfl, id⟩
+
+theorem nodupPos_copyPrefix (s : Spec) (src dst : Nat) (len : Int) (h : NodupPos s) :
+    NodupPos (KV.copyPrefix s src dst len) := by
+  intro q
+  by_cases hq : q = dst
+  · subst hq
+    refine (h src).sublist (seqPositions_filterMap_sublist _ q src ?_ s)
+    intro x y hxy
+    unfold cpEntry at hxy
+    simp only at hxy
+    split at hxy
+    · cases hxy
+    · cases hxy
+      refine ⟨rfl, fun hm => ?_⟩
+      unfold cpSeqs at hm
+      simp only at hm
+      split at hm
+      · rename_i hc; exact (List.mem_filter.mp hc.1).1
+      · exact absurd hm (by simp)
+  · refine (h q).sublist (seqPositions_filterMap_sublist _ q q ?_ s)
+    intro x y hxy
+    unfold cpEntry at hxy
+    simp only at hxy
+    split at hxy
+    · cases hxy
+    · cases hxy
+      refine ⟨rfl, fun hm => ?_⟩
+      rcases mem_cpSeqs hm with h1 | h1
+      · exact absurd h1 hq
+      · exact h1
+
+/-- the batch brings, for every sequence, positions that are new to it and pairwise distinct -/
+def FreshPositions (s : Spec) (b : List Tok) : Prop :=
+  ∀ q, ((b.filter (fun t => decide (t.seq = q))).map (·.pos)).Nodup ∧
+    ∀ t ∈ b, t.seq = q → ∀ p ∈ seqPositions s q, p ≠ t.pos
+
+theorem seqPositions_store (s : Spec) (batch : List (Tok × Nat)) (q : Nat) :
+    seqPositions (KV.store s batch) q = seqPositions s q ++ ((batch.map (·.1)).filter (fun t => decide (t.seq = q))).map (·.pos) := by
+  unfold seqPositions KV.store
+  rw [List.filter_append, List.map_append]
+  congr 1
+  induction batch with
+  | nil => rfl
+  | cons x xs ih =>
+    simp only [List.map_cons]
+    by_cases hx : x.1.seq = q
+    · rw [List.filter_cons_of_pos (by simp [hx]), List.filter_cons_of_pos (by simp [hx]), List.map_cons, List.map_cons, ih]
+    · rw [List.filter_cons_of_neg (by simp; exact fun h => hx h.symm), List.filter_cons_of_neg (by simp [hx]), ih]
+
+theorem nodupPos_store (s : Spec) (b : List Tok) (ids : List Nat) (hids : ids.length = b.length) (h : NodupPos s)
+    (hf : FreshPositions s b) : NodupPos (KV.store s (b.zip ids)) := by
+  intro q
+  have hb : (b.zip ids).map (·.1) = b := by
+    rw [List.map_fst_zip]; omega
+  rw [seqPositions_store, hb, List.nodup_append]
+  refine ⟨h q, (hf q).1, ?_⟩
+  intro a ha p hp
+  obtain ⟨t, ht, rfl⟩ := List.mem_map.mp hp
+  have ht' := List.mem_filter.mp ht
+  exact (hf q).2 t ht'.1 (by simpa using ht'.2) a ha
+
+theorem freshPositions_of_sublist (s s' : Spec) (b : List Tok) (hsub : ∀ q, (seqPositions s' q).Sublist (seqPositions s q))
+    (h : FreshPositions s b) : FreshPositions s' b :=
+  fun q => ⟨(h q).1, fun t ht hq p hp => (h q).2 t ht hq p ((hsub q).subset hp)⟩
+
+theorem seqPositions_evict_sublist (s : Spec) (seq : Nat) (thr : Int) (q : Nat) :
+    (seqPositions (evict s seq thr) q).Sublist (seqPositions s q) := by
+  refine seqPositions_filterMap_sublist _ q q ?_ s
+  intro x y hxy
+  unfold evictEntry at hxy
+  split at hxy
+  · simp only at hxy
+    split at hxy
+    · cases hxy
+    · cases hxy; exact ⟨rfl, fun hq => (List.mem_filter.mp hq).1⟩
+  · cases hxy; exact ⟨rfl, id⟩
+
+theorem seqPositions_specSlide_sublist (s : Spec) (w : Int) (b : List Tok) (q : Nat) :
+    (seqPositions (specSlide s w b) q).Sublist (seqPositions s q) := by
+  unfold specSlide
+  generalize batchSeqs b = seqs
+  induction seqs generalizing s with
+  | nil => exact List.Sublist.refl _
+  | cons seq rest ih =>
+    simp only [List.foldl_cons]
+    cases lowest b seq with
+    | none => exact ih s
+    | some low => exact (ih _).trans (seqPositions_evict_sublist s seq _ q)
+
+/-- `FreshPositions` with the quantifier bounded by the batch (decidable) -/
+def FreshPositionsB (s : Spec) (b : List Tok) : Prop :=
+  ∀ t0 ∈ b, ((b.filter (fun t => decide (t.seq = t0.seq))).map (·.pos)).Nodup ∧
+    ∀ t ∈ b, t.seq = t0.seq → ∀ p ∈ seqPositions s t0.seq, p ≠ t.pos
+
+instance (s : Spec) (b : List Tok) : Decidable (FreshPositionsB s b) := by unfold FreshPositionsB; infer_instance
+
+theorem freshPositions_of_bounded (s : Spec) (b : List Tok) (h : FreshPositionsB s b) : FreshPositions s b := by
+  intro q
+  by_cases hq : ∃ t0 ∈ b, t0.seq = q
+  · obtain ⟨t0, ht0, rfl⟩ := hq
+    exact h t0 ht0
+  · have hnone : b.filter (fun t => decide (t.seq = q)) = [] := by
+      rw [List.filter_eq_nil_iff]
+      intro t ht hts
+      exact hq ⟨t, ht, by simpa using hts⟩
+    refine ⟨by rw [hnone]; exact List.nodup_nil, fun t ht hts => absurd ⟨t, ht, hts⟩ hq⟩
+
+/-- the history keeps the contract under which positions stay distinct: batches bring new, distinct positions
+    for their sequences; removals go to the end (`MaxInt32`; a middle removal shifts positions) -/
+def OnContract (s : Spec) : HOp → Prop
+  | .fwd b _ => FreshPositionsB s b
+  | .rm _ _ e => e = maxInt32
+  | _ => True
+
+theorem nodupPos_specStepT (W : Option Int) (s : Spec) (op : HOp) (acc : Bool) (h : NodupPos s)
+    (hc : OnContract s op) (hwf : WellFormed op) : NodupPos (specStepT W s op acc) := by
+  cases op with
+  | fwd b ids =>
+    have h1 : NodupPos (match W with | none => s | some w => specSlide s w b) ∧
+        FreshPositions (match W with | none => s | some w => specSlide s w b) b := by
+      cases W with
+      | none => exact ⟨h, freshPositions_of_bounded s b hc⟩
+      | some w => exact ⟨nodupPos_specSlide s w b h,
+          freshPositions_of_sublist s _ b (seqPositions_specSlide_sublist s w b) (freshPositions_of_bounded s b hc)⟩
+    simp only [specStepT]
+    split
+    · exact nodupPos_store _ b ids hwf h1.1 h1.2
+    · exact h1.1
+  | cp src dst len => exact nodupPos_copyPrefix s src dst len h
+  | rm seq b e =>
+    have he : e = maxInt32 := hc
+    subst he
+    simp only [specStepT]
+    split
+    · cases hr : KV.remove s seq b maxInt32 with
+      | none => exact h
+      | some s' => exact nodupPos_remove_inf s s' seq b h hr
+    · exact h
+  | sc ex => exact h
+  | rsv b => exact h
+
+/-- the contract along a history (stated on the location-free state, next to the cache's answers) -/
+def ContractRun (W : Option Int) : Cache → Spec → List HOp → Prop
+  | _, _, [] => True
+  | c, s, op :: ops => OnContract s op ∧ WellFormed op ∧ ContractRun W (stepH c op) (specStepT W s op (accepted c op)) ops
+
+theorem contractRun_wf (W : Option Int) (c : Cache) (s : Spec) (ops : List HOp) (h : ContractRun W c s ops) :
+    ∀ op ∈ ops, WellFormed op := by
+  induction ops generalizing c s with
+  | nil => intro op hop; simp at hop
+  | cons o rest ih =>
+    intro op hop
+    rcases List.mem_cons.mp hop with rfl | hop
+    · exact h.2.1
+    · exact ih _ _ h.2.2 op hop
+
+theorem nodupPos_runT (W : Option Int) (c : Cache) (s : Spec) (ops : List HOp) (h : NodupPos s)
+    (hc : ContractRun W c s ops) : NodupPos (runT W c s ops) := by
+  induction ops generalizing c s with
+  | nil => exact h
+  | cons op rest ih =>
+    exact ih _ _ (nodupPos_specStepT W s op _ h hc.1 hc.2.1) hc.2.2
+
+/-- **`CanResume` is sound along every history that keeps the contract** (repaired tree, sliding window `w`):
+    no hypothesis about the cache state is left — if `CanResume(seq, pos)` approves, every position of the window
+    below `pos` is held by the sequence. -/
+theorem canResume_sound_on_contract (v : Variant) (hv : v.fixDefrag = true) (hat : v.atomicRemove = true)
+    (hfr : v.fixResume = true) (w : Int) (maxSeq capacity maxBatch cachePad batchPad : Nat) (hs : Bool) (ops : List HOp)
+    (hsz : (Causal.init v (some w) maxSeq capacity maxBatch cachePad batchPad hs).cells.length ≤ maxInt)
+    (hc : ContractRun (some w) (Causal.init v (some w) maxSeq capacity maxBatch cachePad batchPad hs) [] ops)
+    (seq : Nat) (pos : Int) :
+    let c := ops.foldl stepH (Causal.init v (some w) maxSeq capacity maxBatch cachePad batchPad hs)
+    canResume c seq pos = true → ∀ p, max 0 (pos - w) ≤ p → p < pos → ∃ e ∈ abs c, seq ∈ e.seqs ∧ e.pos = p := by
+  intro c hres p h1 h2
+  have hinv := inv_run _ ops (inv_init v (some w) maxSeq capacity maxBatch cachePad batchPad hs hsz)
+  have hperm := refines_run_total (Causal.init v (some w) maxSeq capacity maxBatch cachePad batchPad hs) ops []
+    (by rw [abs_init]) (inv_init v (some w) maxSeq capacity maxBatch cachePad batchPad hs hsz) hv hat
+    (rowsFresh_init v (some w) maxSeq capacity maxBatch cachePad batchPad hs)
+    (freshEmpty_init v (some w) maxSeq capacity maxBatch cachePad batchPad hs) (contractRun_wf _ _ _ _ hc)
+  have hnd0 : NodupPos (runT (some w) (Causal.init v (some w) maxSeq capacity maxBatch cachePad batchPad hs) [] ops) :=
+    nodupPos_runT _ _ [] ops (fun q => by simp [seqPositions]) hc
+  have hnd : (seqPositions (abs c) seq).Nodup := by
+    have hp : (seqPositions (abs c) seq).Perm (seqPositions (runT (some w) _ [] ops) seq) :=
+      (hperm.filter _).map _
+    exact hp.nodup_iff.mpr (hnd0 seq)
+  have hw : c.window = some w := (run_window _ ops).trans rfl
+  have hfix : c.v.fixResume = true := by
+    have : c.v = v := (run_v _ ops).trans rfl
+    rw [this]; exact hfr
+  exact canResume_sound c seq pos w hinv hw hfix hnd hres p h1 h2
+
 /-! ### Witnesses of the defects the model shares with the code -/
 
 def fwd (c : Cache) (b : List (Tok × Nat)) : Cache :=
@@ -2821,6 +3092,28 @@ theorem window_exact_nonvacuous :
     (startForward ((fwdOps bs).foldl stepH c0) [⟨0, 5⟩]).2 = .ok ∧
     (annotate c0 bs).all (fun pass => decide ((lowest pass.1 0).getD 0 ≤ 5)) = true ∧
     (runI [] (annotate c0 bs)).length = 5 ∧ (abs ((fwdOps bs).foldl stepH c0)).length = 3 := by decide
+
+instance (s : Spec) (op : HOp) : Decidable (OnContract s op) := by
+  cases op <;> unfold OnContract <;> infer_instance
+
+instance (op : HOp) : Decidable (WellFormed op) := by
+  cases op <;> unfold WellFormed <;> infer_instance
+
+instance decContractRun (W : Option Int) : (c : Cache) → (s : Spec) → (ops : List HOp) → Decidable (ContractRun W c s ops)
+  | _, _, [] => isTrue trivial
+  | c, s, op :: ops =>
+    have := decContractRun W (stepH c op) (specStepT W s op (accepted c op)) ops
+    by unfold ContractRun; infer_instance
+
+/-- non-vacuity of `canResume_sound_on_contract` (audited): window 2, positions 0..4 one by one, a fork of the
+    first 4 positions, the fork cut back to 3 — the history keeps the contract; `CanResume` approves resuming the
+    source at 4 (window 2..3 present) and refuses the fork at 3 (position 1 was evicted before the fork) -/
+theorem canResume_contract_nonvacuous :
+    let c0 := Causal.init { fixDefrag := true, fixResume := true, atomicRemove := true } (some 2) 2 16 4 1 1 true
+    let ops := [HOp.fwd [⟨0, 0⟩] [1], .fwd [⟨0, 1⟩] [2], .fwd [⟨0, 2⟩] [3], .fwd [⟨0, 3⟩] [4], .fwd [⟨0, 4⟩] [5],
+      .cp 0 1 4, .rm 1 3 maxInt32, .rm 0 4 maxInt32]
+    ContractRun (some 2) c0 [] ops ∧ canResume (ops.foldl stepH c0) 0 4 = true ∧
+    canResume (ops.foldl stepH c0) 1 3 = false := by decide
 
 /-- the cache's answers along a history -/
 def acceptTrace : Cache → List HOp → List Bool
